@@ -28,6 +28,8 @@ def permitted(where, code, kind, want, chain=()):
             return True  # Optional <-> not required: a None default is carried by optionality
         if code == "typ-changed" and e is not None and "default" in e and _is_none(e["default"]):
             return True  # a None default is expressed as optionality: typ becomes Optional[typ]
+        if code == "typ-changed" and e is not None and "default" not in e and "class" in kinds and e.get("typ") not in ZERO:
+            return True  # ... also the None a class hop gave a non-scalar parameter without default (two documented normalisations)
         if code == "ret-lost" and "default" not in ((want.get("returns") or {}).get("return_type") or {}):
             return True  # only a return entry that carries a default is representable
     return False
@@ -47,8 +49,8 @@ def _has_default_before(want, where):
     for n, e in want["params"].items():
         if n == where:
             return seen
-        if "default" in e and not _is_none(e["default"]):
-            seen = True
+        if "default" in e:
+            seen = True  # (a None default counts: g2_13_14)
     return seen  # the return entry comes after all params
 
 
@@ -134,7 +136,9 @@ def tolerated(kind, where, code, want, opts, active):
     return False
 
 
-def judge(got, want, kind, opts, active, chain=()):
+def residual(got, want, kind, opts, active, chain=()):
+    """the differences that are neither a documented normalisation nor the exact outcome of an open known finding"""
+    out = []
     defaults_on = opts.get("emit_default_doc", True) and all(True for _ in chain)
     for where, code in iface_diffs(got, want, kind, defaults_on=defaults_on, ws=opts.get("ws", False)):
         if code == "order":
@@ -145,13 +149,18 @@ def judge(got, want, kind, opts, active, chain=()):
             if "KF-RT-noprose-order" in active and list(got["params"].keys()) == expected and any(
                     k in ("class", "function", "method") for k in (kind,) + tuple(chain)):
                 continue
-            return False
+            out.append((where, code))
+            continue
         if permitted(where, code, kind, want, chain):
             continue
         if any(tolerated(k, where, code, want, opts, active) for k in (kind,) + tuple(chain)):
             continue
-        return False
-    return True
+        out.append((where, code))
+    return out
+
+
+def judge(got, want, kind, opts, active, chain=()):
+    return not residual(got, want, kind, opts, active, chain)
 
 
 def first_diff(got, want, kind, opts, chain=()):
